@@ -56,8 +56,11 @@ type pspec struct {
 
 func el(name string, kv ...string) *pb.PathElem {
 	e := &pb.PathElem{Name: name}
-	if len(kv) == 2 {
-		e.Key = map[string]string{kv[0]: kv[1]}
+	if len(kv) >= 2 {
+		e.Key = map[string]string{}
+		for i := 0; i+1 < len(kv); i += 2 {
+			e.Key[kv[i]] = kv[i+1]
+		}
 	}
 	return e
 }
@@ -65,7 +68,9 @@ func el(name string, kv ...string) *pb.PathElem {
 var paths = []pspec{
 	{"a/b", "", func() *pb.Path { return &pb.Path{Elem: []*pb.PathElem{el("a"), el("b")}} }, []string{"a", "b"}},
 	{"a/c[k=v]", "", func() *pb.Path { return &pb.Path{Elem: []*pb.PathElem{el("a"), el("c", "k", "v")}} }, []string{"a", "c", "v"}},
-	{"a/c[k=w]", "", func() *pb.Path { return &pb.Path{Elem: []*pb.PathElem{el("a"), el("c", "k", "w")}} }, []string{"a", "c", "w"}},
+	// a second entry of the same list, identified by TWO keys whose values sort
+	// the other way round than their names (indexed by key name: x's value, then y's)
+	{"a/c[x=2][y=1]", "", func() *pb.Path { return &pb.Path{Elem: []*pb.PathElem{el("a"), el("c", "x", "2", "y", "1")}} }, []string{"a", "c", "2", "1"}},
 	{"o2:x", "o2", func() *pb.Path { return &pb.Path{Elem: []*pb.PathElem{el("x")}} }, []string{"x"}},
 	{"deprecated d/e", "", func() *pb.Path { return &pb.Path{Element: []string{"d", "e"}} }, []string{"d", "e"}},
 	// delete-only patterns
